@@ -312,6 +312,14 @@ impl Monitor for FrameMonitor {
                     format!("step {step}: after the call returned, byte {at} of the caller's region [{}, {}) differs from its value at the call", s.lo, s.lo + s.bytes.len() as u64),
                 ));
             }
+            // the return itself does not touch $hp: the caller continues with the callee's final $hp
+            if post[HP as usize] != pre[HP as usize] {
+                return Some((
+                    "return-heap".into(),
+                    "return-heap:hp-changed-by-return".into(),
+                    format!("step {step}: {op:?} changed $hp from the callee's {} to {} (the caller had {} at the call)", pre[HP as usize], post[HP as usize], s.regs[HP as usize]),
+                ));
+            }
             // heap allocated by the callee stays readable; $hp never moves back up
             let (hp_now, hp_then) = (post[HP as usize], s.regs[HP as usize]);
             if hp_now > hp_then {
